@@ -182,6 +182,11 @@ class World:
         return w
 
     def gen_op(self, rng: random.Random, op_id: int) -> dict:
+        pending = getattr(self, "pending", None)
+        if pending:
+            op = pending.pop(0)
+            op["id"] = op_id
+            return op
         w = self.weights()
         kinds = sorted(k for k, v in w.items() if v > 0)
         for _ in range(30):
@@ -195,6 +200,14 @@ class World:
                 continue
             op = {"id": op_id, "k": kind, "sub": sub, "h": h, "keep": orng.random() < self.cfg.get("keep_prob", 0.4)}
             op.update(args)
+            if kind == "add_data" and op.get("pg") and op["assoc"] != "OBJECT" and orng.random() < 0.6:
+                # burst: more data of the same association into the same property group of the same object
+                self.pending = []
+                for _ in range(orng.randint(1, 2)):
+                    clone = dict(op)
+                    clone.update(sub=rng.getrandbits(64), name=build.name(orng), vseed=orng.getrandbits(32),
+                                 dkind=orng.choice(build.DATA_KINDS[:4] + ["textarr"]), len="exact", t={**op["t"], "by": None} if op["t"]["by"] is None else op["t"])
+                    self.pending.append(clone)
             return op
         return {"id": op_id, "k": "gc", "sub": rng.getrandbits(64), "h": "A", "keep": False}
 
@@ -291,7 +304,7 @@ class World:
 
     def gen_mk_object(self, rng, h):
         model = self.h[h].model
-        cls = rng.choice(build.OBJECT_CLASSES)
+        cls = rng.choices(build.OBJECT_CLASSES, build.OBJECT_WEIGHTS)[0]
         if cls == "Drillhole" and rng.random() < 0.6:
             t = self.target(rng, h, "groupish", lambda r: r.get("concat_group"))
             if t is None:
@@ -365,9 +378,15 @@ class World:
         t = self.target(rng, h, "object", lambda r: not r.get("concat") and r["cls"] != "Drillhole")
         if t is None:
             return None
-        return {"t": t, "dkind": rng.choice(build.DATA_KINDS), "assoc": rng.choice(["VERTEX", "CELL", "OBJECT"]),
+        # prefer an association the target supports (the op still carries a fallback for replays)
+        model = self.h[h].model
+        cands = [u for u in model.alive("object") if not model.recs[u].get("concat") and model.recs[u]["cls"] != "Drillhole"]
+        rec = model.recs[cands[t["fb"] % len(cands)]]
+        options = [a for a in ("VERTEX", "CELL") if self._n_for(rec, a)] + ["OBJECT"]
+        assoc = rng.choice(options[:-1]) if len(options) > 1 and rng.random() < 0.8 else "OBJECT"
+        return {"t": t, "dkind": rng.choice(build.DATA_KINDS), "assoc": assoc,
                 "len": rng.choices(["exact", "short", "long"], [8, 2, 1])[0], "name": build.name(rng),
-                "pg": (rng.choice(["pgA", "pgB", "pgC"]) if rng.random() < 0.35 else None), "vseed": rng.getrandbits(32)}
+                "pg": (rng.choice(["pgA", "pgB", "pgC"]) if rng.random() < 0.5 else None), "vseed": rng.getrandbits(32)}
 
     def do_add_data(self, op):
         h = op["h"]
@@ -792,6 +811,8 @@ class World:
         self.copies.append(info)
         self.keep_or_drop({**op}, dh, new)
         self.sim.probe("copy_cross" if dh != h else "copy_same")
+        if any(len(pg["props"]) >= 2 for u in model.subtree(uid) for pg in model.recs[u].get("pgs", {}).values()) and op["children"]:
+            self.sim.probe("copy_with_pg_of_2plus")
         if any(c["dst"] == uid for c in self.copies[:-1]):
             self.sim.probe("copy_of_copy")
         return "ok"
